@@ -567,6 +567,129 @@ func (h *hist) pickTS(fence, cur uint64) uint64 {
 
 var batchSizes = []int{2, 2, 3, 3, 4, 5, 7, 16, 0}
 
+// target is a transaction whose primary is committed while some of its secondaries are still locked.
+type target struct {
+	start, commit uint64
+	keys          []string
+}
+
+func (h *hist) pickTarget(fence uint64) *target {
+	lv := h.lockView()
+	by := map[uint64]*target{}
+	var order []uint64
+	for _, k := range h.keys {
+		l := lv[k]
+		if l == nil || l.class != "committed" || l.commitTS > fence || l.startTS < 2 {
+			continue
+		}
+		t := by[l.startTS]
+		if t == nil {
+			t = &target{start: l.startTS, commit: l.commitTS}
+			by[l.startTS] = t
+			order = append(order, l.startTS)
+		}
+		t.keys = append(t.keys, k)
+	}
+	if len(order) == 0 {
+		return nil
+	}
+	return by[order[h.rng.Intn(len(order))]]
+}
+
+// readSome reads some of the keys through a random access path (twice).
+func (h *hist) readSome(si int, oi *int, st *sessState, keys []string, onlyOne bool) {
+	ks := append([]string(nil), keys...)
+	h.rng.Shuffle(len(ks), func(i, j int) { ks[i], ks[j] = ks[j], ks[i] })
+	if onlyOne {
+		ks = ks[:1]
+	} else if len(ks) > 1 && h.rng.Intn(2) == 0 {
+		ks = ks[:1+h.rng.Intn(len(ks))]
+	}
+	var path string
+	var lower, upper []byte
+	var rk []string
+	switch x := h.rng.Intn(100); {
+	case x < 35:
+		path, rk = "get", ks[:1]
+	case x < 65:
+		path, rk = "batchget", ks
+		for _, k := range h.keys { // some bystanders
+			if h.rng.Intn(4) == 0 {
+				rk = append(rk, k)
+			}
+		}
+		h.rng.Shuffle(len(rk), func(i, j int) { rk[i], rk[j] = rk[j], rk[i] })
+	default:
+		path = "iter"
+		if x >= 85 && h.backend == uni.Mock {
+			path = "iterrev"
+		}
+		sort.Strings(ks)
+		if h.rng.Intn(2) == 0 {
+			lower = []byte(ks[0])
+		}
+		if h.rng.Intn(2) == 0 {
+			upper = append([]byte(ks[len(ks)-1]), 0)
+		}
+	}
+	for rep := 0; rep < 2 && !h.aborted; rep++ {
+		h.doRead(si, *oi, rep, st, path, rk, lower, upper)
+	}
+	*oi++
+}
+
+func (h *hist) setTS(si, oi int, st *sessState, nts uint64) {
+	if nts == st.ts {
+		return
+	}
+	if nts > st.ts {
+		st.moved = 1
+	} else {
+		st.moved = -1
+	}
+	st.snap.SetSnapshotTS(nts)
+	st.log = append(st.log, fmt.Sprintf("s%d.%d SetSnapshotTS %d -> %d", si, oi, st.ts, nts))
+	st.ts = nts
+	st.read = map[string]bool{}
+	h.r.Count(map[int]string{1: "set_ts_forward", -1: "set_ts_backward"}[st.moved], 1)
+}
+
+// targetedSession moves one snapshot across the commit ts of a transaction with leftover locks.
+func (h *hist) targetedSession(si int, st *sessState, fence uint64, t *target) {
+	above := []uint64{t.commit, t.commit + 1, fence}
+	below := []uint64{t.start, t.start + 1, t.commit - 1, t.commit - 1}
+	pick := func(c []uint64) uint64 {
+		for i := 0; i < 10; i++ {
+			if ts := c[h.rng.Intn(len(c))]; ts >= 1 && ts <= fence {
+				return ts
+			}
+		}
+		return fence
+	}
+	a, b := pick(above), pick(below)
+	if b >= t.commit {
+		b = t.start
+	}
+	first, second := a, b
+	if h.rng.Intn(3) == 0 {
+		first, second = b, a
+	}
+	h.r.Count("targeted_sessions", 1)
+	st.log = append(st.log, fmt.Sprintf("targeted: txn start=%d commit=%d locked keys %q", t.start, t.commit, t.keys))
+	oi := 0
+	h.setTS(si, oi, st, first) // the snapshot was created at another ts: one more move
+	h.readSome(si, &oi, st, t.keys, len(t.keys) > 1)
+	h.setTS(si, oi, st, second)
+	h.readSome(si, &oi, st, t.keys, false)
+	if h.rng.Intn(2) == 0 {
+		h.readSome(si, &oi, st, t.keys, false)
+	}
+	if h.rng.Intn(2) == 0 {
+		h.setTS(si, oi, st, first)
+		h.readSome(si, &oi, st, t.keys, false)
+	}
+}
+
 func (h *hist) session(si int, nOps int) {
 	rd := h.rd[h.rng.Intn(len(h.rd))]
 	// the reader fetches a fresh timestamp: the fence for every snapshot ts of this session (and its resolver's clock)
@@ -587,24 +710,17 @@ func (h *hist) session(si int, nOps int) {
 	}
 	h.sess[si] = st
 	st.log = append(st.log, fmt.Sprintf("session %d client %d fence=%d ts=%d asyncBatchGet=%v batch=%d", si, rd.ID, fence, st.ts, st.asyncBG, st.batchSize))
+	if h.rng.Intn(100) < 35 {
+		if t := h.pickTarget(fence); t != nil {
+			h.targetedSession(si, st, fence, t)
+			return
+		}
+	}
 	for oi := 0; oi < nOps && !h.aborted; oi++ {
 		x := h.rng.Intn(100)
 		switch {
 		case x < 16:
-			nts := h.pickTS(fence, st.ts)
-			if nts == st.ts {
-				continue
-			}
-			if nts > st.ts {
-				st.moved = 1
-			} else {
-				st.moved = -1
-			}
-			st.snap.SetSnapshotTS(nts)
-			st.log = append(st.log, fmt.Sprintf("s%d.%d SetSnapshotTS %d -> %d", si, oi, st.ts, nts))
-			st.ts = nts
-			st.read = map[string]bool{}
-			h.r.Count(map[int]string{1: "set_ts_forward", -1: "set_ts_backward"}[st.moved], 1)
+			h.setTS(si, oi, st, h.pickTS(fence, st.ts))
 		case x < 20:
 			st.keyOnly = !st.keyOnly
 			st.snap.SetKeyOnly(st.keyOnly)
